@@ -156,7 +156,7 @@ func load() (*loaded, error) {
 	}
 	prog, _ := ssautil.AllPackages(pkgs, ssa.InstantiateGenerics)
 	prog.Build()
-	w := &exec.World{Prog: prog, Pkgs: map[string]*ssa.Package{}, InitPkgs: map[string]bool{}}
+	w := &exec.World{Prog: prog, Pkgs: map[string]*ssa.Package{}, InitPkgs: map[string]bool{}, RepoDir: repoDir}
 	for _, p := range prog.AllPackages() {
 		w.Pkgs[p.Pkg.Path()] = p
 		if strings.HasPrefix(p.Pkg.Path(), modPath) {
